@@ -92,7 +92,7 @@ Theorem C01_app_judgement_transfer : forall sc t, JudgeC01P.profile_C01b sc = tr
 Proof. exact JudgeC01P.C01_app_judgement_transfer. Qed.
 
 
-(* ---- source tie (DESIGN 11.8): definitions REGENERATED from the Rust source text by bin/rs2v.py on every run
+(* ---- source tie (DESIGN 11.7): definitions REGENERATED from the Rust source text by bin/rs2v.py on every run
    (coq/Generated/*.v) coincide with the hand-written model ---- *)
 From BEI Require Generated.ValueSrc Generated.EventsSrc Generated.TrackerSrc Proofs.SrcTieP.
 Theorem C01_source_events_table : forall p c, EventsSrc.events_new_src p c = State.events_new p c.
